@@ -73,7 +73,8 @@ Section API.
   Theorem verify_modified_signature : forall pk msg ctx sig sig',
     verify P HS pk msg sig ctx = Some true -> verify P HS pk msg sig' ctx = Some true ->
     firstn n sig = firstn n sig' -> sig <> sig' ->
-    sig_switch P HS (firstn n pk) (skipn n pk) (wrap_msg msg ctx) sig sig' = true \/ th_collision HS (firstn n pk).
+    sig_switch P HS (firstn n pk) (skipn n pk) (wrap_msg msg ctx) sig sig' = true
+    \/ located_collision P HS (firstn n pk) (skipn n pk) (wrap_msg msg ctx) sig sig' = true.
   Proof.
     intros pk msg ctx sig sig' V V' ER Hne. unfold verify in V, V'.
     destruct (negb (Nat.eqb (length pk) (2 * n))); [discriminate|].
@@ -88,7 +89,8 @@ Section API.
     firstn (length (tink_prefix tv id) + n) sig = firstn (length (tink_prefix tv id) + n) sig' -> sig <> sig' ->
     sig_switch P HS (firstn n pk) (skipn n pk) (wrap_msg msg [])
       (skipn (length (tink_prefix tv id)) sig) (skipn (length (tink_prefix tv id)) sig') = true
-    \/ th_collision HS (firstn n pk).
+    \/ located_collision P HS (firstn n pk) (skipn n pk) (wrap_msg msg [])
+      (skipn (length (tink_prefix tv id)) sig) (skipn (length (tink_prefix tv id)) sig') = true.
   Proof.
     intros tv id pk msg sig sig' V V' ER Hne.
     apply tink_verify_accepts_iff in V, V'. destruct V as (s & -> & V). destruct V' as (s' & -> & V').
